@@ -100,6 +100,14 @@ func c08run(r *kernel.Run, seed uint64, controlled bool) {
 		ndev = 2
 	}
 	sameAccount := r.Choose(3) == 2 // two devices of one member
+	if !controlled { // lossy and duplicating network during the history (repaired by head exchange at the end)
+		if r.Choose(2) == 1 {
+			s.dropRate = 1 + r.Choose(10)
+		}
+		if r.Choose(2) == 1 {
+			s.dupRate = 1 + r.Choose(10)
+		}
+	}
 	for i := 0; i < ndev; i++ {
 		n, err := s.addNode(fmt.Sprintf("d%d", i), 100)
 		if err != nil {
@@ -140,7 +148,7 @@ func c08run(r *kernel.Run, seed uint64, controlled bool) {
 	if controlled {
 		nmsgs = 1 + r.Choose(3)
 	}
-	r.Logf("pipeline: devices=%d same_account(d0,d1)=%v messages=%d connected_from_start=%v eagerdag=%v controlled=%v", ndev, sameAccount, nmsgs, connectedFromStart, s.w.EagerDag, controlled)
+	r.Logf("pipeline: devices=%d same_account(d0,d1)=%v messages=%d connected_from_start=%v eagerdag=%v controlled=%v drop=%d/64 dup=%d/64", ndev, sameAccount, nmsgs, connectedFromStart, s.w.EagerDag, controlled, s.dropRate, s.dupRate)
 
 	if controlled {
 		sc = sched.New(r.Choose, r.Choose(3), func(f string, a ...any) { r.Logf(f, a...); r.Step() })
@@ -240,7 +248,7 @@ func c08run(r *kernel.Run, seed uint64, controlled bool) {
 	sent := 0
 	for e := 0; e < events*3 && !r.Failed(); e++ {
 		for k := s.r.Choose(10); k > 0; k-- {
-			if !netOrStep(false) {
+			if !netOrStep(true) {
 				break
 			}
 		}
